@@ -155,4 +155,22 @@ inductive SCond
   | unknown (src : String)
 deriving DecidableEq, Repr
 
+/-! ### the "nothing to extract here" tests of `postprocessItem()`, translated (tools/facts/sec_scope.go) -/
+
+inductive PAtom
+  | domainsCrawl                         -- domainscrawl.Enabled()
+  | depthCmp (op : Cmp) (n : Int)        -- item.GetDepthWithoutRedirections() <op> n
+  | mimeHtml                             -- the sniffed MIME type contains "html"
+  | disableAssets                        -- config.Get().DisableAssetsCapture
+  | maxHopsCmp (op : Cmp) (n : Nat)      -- config.Get().MaxHops <op> n
+deriving DecidableEq, Repr
+
+inductive PCond
+  | atom (a : PAtom)
+  | not (c : PCond)
+  | and (a b : PCond)
+  | or (a b : PCond)
+  | unknown (src : String)
+deriving DecidableEq, Repr
+
 end Zeno
